@@ -30,9 +30,16 @@ def run_cells(ctx, cells_by_bits, batch=40, org=0x7c00, R=None):
     A batch that does not parse is re-run cell by cell (the offending cell is then isolated)."""
     R = R or flow.Runner(ctx)
     plan = []
+    # cells that mention the label lbl0 get it defined 200 bytes into the image, and are run at two origins
+    lbl = [{"k": "resb", "e": {"o": "n", "v": 200}}, {"k": "label", "nm": "lbl0"}, {"k": "data", "mn": "DW", "items": [{"t": "e", "e": {"o": "n", "v": 1}}]}]
     for bits, cells in cells_by_bits.items():
-        for stmts, where in flow.batch_cells(cells, batch, org=org, bits=(32 if bits == 32 else None)):
+        plain = [c for c in cells if '"lbl0"' not in json.dumps(c)]
+        withl = [c for c in cells if '"lbl0"' in json.dumps(c)]
+        for stmts, where in flow.batch_cells(plain, batch, org=org, bits=(32 if bits == 32 else None)):
             plan.append((R.add(stmts), bits, stmts, where))
+        for o in (org, 0xc200, 0):
+            for stmts, where in flow.batch_cells(withl, batch, org=o, bits=(32 if bits == 32 else None), prefix=lbl):
+                plan.append((R.add(stmts), bits, stmts, where))
     R.run()
     redo = []
     for cid, bits, stmts, where in plan:
